@@ -174,6 +174,14 @@ def obligations(tier, seed):
             for lens in ([[2, 1]] if q else [[2, 1], [1], [5, 3, 1], [4]]):
                 obs.append(ob("c03.split.%s.g%d.%s" % (scheme, gi, "-".join(map(str, lens))), "harness.c03", "h_split",
                               {"scheme": scheme, "over": over, "lens": lens, "seed": seed}, budget_s=300))
+    # indexes whose internal pointers / addresses are wider than one byte (> 255 array cells): a width that the
+    # building instance remembers instead of the wire format carrying it only shows on such an index (Pi2Lev fixes
+    # its index width in the configuration, so it has no such case)
+    wide = [("CJJ14.PiPtr", {"param_B": 1, "param_b": 1, "param_identifier_size": 2}, [300, 1]),
+            ("CGKO06.SSE1", {"param_s": 512, "param_identifier_size": 2}, [200, 100, 1])]
+    for scheme, over, lens in wide:
+        obs.append(ob("c03.split.wide.%s" % scheme, "harness.c03", "h_split",
+                      {"scheme": scheme, "over": over, "lens": lens, "seed": seed}, budget_s=900, per_path_s=300))
     obs.append(twin("c03.roundtrip.twin", "harness.c03", "h_roundtrip", {"scheme": "CT14.Pi", "over": {}, "twin": True}))
     obs.append(twin("c03.split.twin", "harness.c03", "h_split", {"scheme": "CT14.Pi", "over": {}, "lens": [2, 1], "twin": True}))
     return obs
